@@ -31,8 +31,9 @@ def replay(case):
         q = g['q']
         lows = [('elim_round', st.elim_round(q))]
     x = Float(bool(t['s']), inp['exp'], inp['c'])
+    args = (x,) if 'cy' not in inp else (x, Float(bool(inp['sy']), 0, inp['cy']))
     try:
-        a = _cls(q(x))
+        a = _cls(q(*args))
     except Exception as ex:  # noqa
         return {'violates': False, 'observed': 'original raises %r' % ex, 'key': 'pre'}
     problems = []
@@ -40,7 +41,7 @@ def replay(case):
         if case.get('rewrite') and lab != case['rewrite']:
             continue
         try:
-            b = _cls(h(x))
+            b = _cls(h(*args))
         except Exception as ex:  # noqa
             problems.append((lab, 'lowered raised %r' % ex)); continue
         if a[0] != b[0] or (a[0] == 'inf' and a[1] != b[1]) or (a[0] == 'fin' and (a[1] != b[1] or a[2] != b[2])):
